@@ -11,6 +11,7 @@ package main
 import (
 	"bytes"
 	"encoding/binary"
+	"strings"
 
 	"github.com/ipfs/go-cid"
 	carv2 "github.com/ipld/go-car/v2"
@@ -35,6 +36,7 @@ type c09Input struct {
 	keys  [][]byte
 	isIdx bool // an index file rather than a CAR
 	hasIndex bool // a CARv2 carrying an index
+	allIdx bool // run every front end of the index generator, not a random one
 	claim string // "hdr" | "inner-hdr" | "sec": a length prefix over the row's limit whose body is cut off or absent
 	pre bool // (claim sec) a valid section precedes the claiming one
 	implOnly bool // too costly for the extracted model: judged at implementation level only
@@ -243,7 +245,9 @@ func c09IndexMutations(ix []byte) (out [][]byte) {
 	return
 }
 
-var c09VarintValues = []uint64{0, 1 << 31, 1<<63 - 1, 1 << 63, 1 << 62, 1<<25 + 1}
+// incl. the values only a 64-bit decoder accepts (go-varint stops at 63 bits): read as int64 they are small
+// negative numbers, -10 being exactly "seek back over the ten-byte prefix"
+var c09VarintValues = []uint64{0, 1 << 31, 1<<63 - 1, 1 << 63, 1 << 62, 1<<25 + 1, 1<<63 + 5, 1<<64 - 11, 1<<64 - 10, 1<<64 - 1}
 
 // c09PayloadMutations: every length varint (header and sections) set to the hostile values, plus
 // len-1, len+1 and a non-minimal encoding; digest-length varints of section CIDs set to go-cid's
@@ -266,6 +270,15 @@ func c09PayloadMutations(b *c09Base) (out [][]byte, classes []string) {
 		enc[len(enc)-1] |= 0x80
 		enc = append(enc, 0x00)
 		out = append(out, c09Splice(b.payload, s.pos, s.width, enc))
+		classes = append(classes, "mut:length-varint-nonminimal")
+		// the same value padded to the full ten bytes
+		enc10 := c09PutUvarint(s.cur)
+		enc10[len(enc10)-1] |= 0x80
+		for len(enc10) < 9 {
+			enc10 = append(enc10, 0x80)
+		}
+		enc10 = append(enc10, 0x00)
+		out = append(out, c09Splice(b.payload, s.pos, s.width, enc10))
 		classes = append(classes, "mut:length-varint-nonminimal")
 	}
 	// the CBOR header: the roots array head (a2 65 "roots" <head>) replaced by heads declaring 2^31-1, 2^32,
@@ -495,7 +508,7 @@ func c09Plan(r *RNG, plan *[]c09Planned, in *c09Input, row c09Row, entries []int
 		ex := c09ExpectFor(&j, in, row)
 		triv := in.valid && row.hdr == "" && row.sec == ""
 		*plan = append(*plan, c09Planned{job: j, expect: ex, class: in.class, trivial: triv})
-		if in.claim != "" && j.Entry == c09ELoadIndex {
+		if (in.claim != "" || in.allIdx) && j.Entry == c09ELoadIndex {
 			// every front end of the index generator: GenerateIndex, LoadIndex, ReadOrGenerateIndex, GenerateIndex+options
 			for v := byte(1); v < 4; v++ {
 				j2 := j
@@ -563,6 +576,7 @@ func c09Produce(c *Ctx) {
 		for i, m := range muts {
 			in := mk(m, classes[i], false, false)
 			in.dpad = 0
+			in.allIdx = strings.HasPrefix(classes[i], "mut:length-varint")
 			c09Plan(r, &plan, in, rowFor(), c09CarEntries)
 			if r.Chance(50) {
 				w, _ := c09Wrap(m, dpad, 0, 0)
@@ -667,6 +681,29 @@ func c09Produce(c *Ctx) {
 				in.dpad = 0
 			}
 			c09Plan(r, &plan, in, rowFor(), c09CarEntries)
+		}
+		// a section shorter than the (hashed, hence looked-up) CID it starts with, and that CID is the key the
+		// stores are asked for: the size-only lookup derives a negative block length
+		for _, sl := range []uint64{1, 2, 35} {
+			for _, follow := range []bool{false, true} {
+				data := r.Bytes(4 + r.Intn(6))
+				kc := mkCid(1, 0x55, mh.SHA2_256, -1, data)
+				body := append([]byte(nil), b.payload[:b.lay.hdrEnd]...)
+				body = append(body, c09PutUvarint(sl)...)
+				body = append(body, kc.Bytes()...)
+				body = append(body, data...)
+				if follow {
+					body = append(body, b.payload[b.lay.hdrEnd:]...)
+				}
+				in := mk(body, "short-section-keyed", false, false)
+				in.dpad, in.allIdx = 0, true
+				in.keys = append([][]byte{kc.Bytes()}, keys...)
+				c09Plan(r, &plan, in, rowFor(), c09CarEntries)
+				w, _ := c09Wrap(body, dpad, 0, 0)
+				in2 := mk(w, "short-section-keyed-in-v2", true, false)
+				in2.keys = in.keys
+				c09Plan(r, &plan, in2, rowFor(), c09CarEntries)
+			}
 		}
 		// sections that overlap (declared length shorter than the CID)
 		ov := c09OverlapPayload(r, &b, 3+r.Intn(6))
